@@ -141,7 +141,7 @@ func baseHistories() []baseHist {
 		{"connect+traffic", gw(false), PeerOpts{}, world.BrokerCfg{FirstID: 30000}, []Step{
 			snStep(snref.Connect("cl", 30, false, true)),
 			snStep(snref.Register(0, 2, "a/b")),
-			snStep(snref.Publish(0, 1, 3, 1, false, false, []byte("p1"))),
+			snStep(snref.Publish(0, 4, 3, 1, false, false, []byte("p1"))), // 4 = the TopicID REGISTER got (1-3 are predefined)
 			snStep(snref.SubscribeName(4, 1, "a/#")),
 			pubStep("a/x", 1, false, "b1"),
 			snStep(snref.Publish(2, snref.ShortID("ab"), 5, 2, false, false, []byte("p2"))),
@@ -260,10 +260,11 @@ var wlTermination = Workload{
 // ---- send faults: a gateway->client datagram write fails somewhere in the history, then a termination cause ----
 
 type faultCase struct {
-	h     int
-	cut   int  // the fault is armed after `cut` steps
-	all   bool // every later write fails / only the next one
-	cause string
+	h      int
+	cut    int  // the fault is armed after `cut` steps
+	all    bool // every later write fails / only the next one
+	cause  string
+	broker bool // the failing writes are those on the broker connection
 }
 
 func faultCases() []faultCase {
@@ -275,7 +276,10 @@ func faultCases() []faultCase {
 		for cut := 0; cut < len(h.steps); cut++ {
 			for _, all := range []bool{false, true} {
 				for _, cz := range []string{"shutdown", "broker-close", "client-disconnect"} {
-					out = append(out, faultCase{hi, cut, all, cz})
+					out = append(out, faultCase{hi, cut, all, cz, false})
+				}
+				for _, cz := range []string{"shutdown", "client-disconnect"} {
+					out = append(out, faultCase{hi, cut, all, cz, true})
 				}
 			}
 		}
@@ -292,6 +296,9 @@ var wlSendFault = Workload{
 		h := baseHistories()[fc.h]
 		steps := append([]Step{}, h.steps[:fc.cut]...)
 		f := Step{Kind: "fail-sends"}
+		if fc.broker {
+			f.Kind = "fail-broker-writes"
+		}
 		if fc.all {
 			f.D = 1
 		}
@@ -300,7 +307,7 @@ var wlSendFault = Workload{
 		steps = append(steps, advStep(2*time.Second))
 		steps = append(steps, causeSteps(fc.cause)...)
 		g := runScript(t, c, h.cfg, h.bcfg, h.po, steps, 130*time.Second, nil)
-		g.Desc = fmt.Sprintf("%s/send-fault@%d/all=%v/%s", h.name, fc.cut, fc.all, fc.cause)
+		g.Desc = fmt.Sprintf("%s/send-fault@%d/all=%v/broker=%v/%s", h.name, fc.cut, fc.all, fc.broker, fc.cause)
 		g.Extra = map[string]interface{}{"cause": fc.cause, "history": h.name, "cut": fc.cut, "send_fault": true}
 		return g
 	},
